@@ -948,6 +948,12 @@ class Interp:
             itv = self.eval(s.iter, env)
             if isinstance(itv, AbsSeq):
                 return self.exec_for_abstract(s, itv, env)
+            if isinstance(itv, AbsCat):
+                # abstract part by the loop rule (its exit state is the state before the first concrete item), then the known items
+                if itv.head:
+                    raise Unsupported("iteration over an abstract list with concrete items in front")
+                self.exec_for_abstract(s, itv.base, env, orelse=False)
+                itv = list(itv.tail)
             broke = False
             for x in self.iterate(itv):
                 self.assign(s.target, x, env)
@@ -1028,7 +1034,7 @@ class Interp:
         else:
             raise Unsupported(f"statement {T.__name__}")
 
-    def exec_for_abstract(self, s, seq, env):
+    def exec_for_abstract(self, s, seq, env, orelse=True):
         """Hoare rule for `for x in seq` over an abstract sequence of unknown length (DESIGN.md 2.5).
         The loop contract (seq.contract) supplies the fold invariant:
           * step: havoc the accumulators to 'fold of an arbitrary prefix', bind x to an arbitrary element of
@@ -1061,7 +1067,8 @@ class Interp:
                 c.check_step(self, env, seq, kind, elem, broke)
                 raise PathEnd()
         c.havoc_exit(self, env, seq)
-        self.exec_block(s.orelse, env)
+        if orelse:
+            self.exec_block(s.orelse, env)
 
     def exec_try(self, s, env):
         try:
@@ -1384,6 +1391,8 @@ class Interp:
         if isinstance(a, NativeAbs) and hasattr(a, "binop"):
             return a.binop(self, T, b, False)
         if isinstance(b, NativeAbs) and hasattr(b, "binop"):
+            if inplace and isinstance(a, list) and isinstance(b, (AbsSeq, AbsCat)):
+                raise Unsupported("in-place extension of a list by an abstract sequence")
             return b.binop(self, T, a, True)
         if isinstance(a, (list,)) and T is ast.Add:
             if inplace:
@@ -1550,6 +1559,8 @@ class Interp:
                 hook = getattr(self.ctx, "tpl_slice_hook", None)
                 if hook:
                     return hook(self, c, lo, hi, st)
+            if isinstance(c, NativeAbs) and hasattr(c, "getslice"):
+                return c.getslice(self, lo, hi, st)
             raise Unsupported("slice of symbolic value")
         k = self.eval(e.slice, env)
         if isinstance(c, Obj):
@@ -1655,9 +1666,16 @@ class AbsSeq(NativeAbs):
         self.length = z3.Int(f"len!{name}") if length is None else length
         self.contract = contract
         self.maps = []      # element-wise functions applied to the base element (comprehensions, imap, ...)
+        self.meta = {}      # provenance (sorted_of / sorted_key / reverse) for contracts
 
     def hasattr(self, it, name):
         return hasattr([], name)
+
+    def binop(self, it, T, other, reflected):
+        # [items] + xs / xs + [items]: a new list with the known items in front / behind
+        if T is not ast.Add or not isinstance(other, list):
+            raise Unsupported("operator on abstract sequence")
+        return AbsCat(self, [], list(other)) if reflected else AbsCat(self, list(other), [])
 
     def derive(self, fn, name=None):
         d = AbsSeq(name or (self.name + "'"), self.contract, self.length)
@@ -1751,6 +1769,57 @@ class _AccDictUpdate(NativeAbs):
             self.acc.tail.extend(d.items())
             return None
         raise Unsupported("update of accumulator with abstract dict")
+
+
+class AbsCat(NativeAbs):
+    """Abstract list `base ++ tail`: an abstract sequence of unknown length followed by concretely known items
+    (what `xs = sorted(abstract); xs.append(e)` builds).  xs[-k] reads the tail, xs[:-k] drops it; the list can only be
+    iterated once the tail has been sliced off (then it is the base sequence and its loop contract applies)."""
+    pytype = list
+
+    def __init__(self, base, tail=(), head=()):
+        self.base = base
+        self.tail = list(tail)
+        self.head = list(head)      # concretely known items in front (what `[x] + abstract` builds)
+
+    def binop(self, it, T, other, reflected):
+        if T is not ast.Add or not isinstance(other, list):
+            raise Unsupported("operator on abstract list")
+        if reflected:
+            return AbsCat(self.base, self.tail, list(other) + self.head)
+        return AbsCat(self.base, self.tail + list(other), self.head)
+
+    def getattr(self, it, name):
+        if name == "append":
+            return _NativeFn(lambda it_, args, kw: self.tail.append(args[0]))
+        raise Unsupported(f"list.{name} on abstract list {self.base.name} ++ {len(self.tail)} items")
+
+    def getitem(self, it, k):
+        if isinstance(k, int) and k < 0 and -k <= len(self.tail):
+            return self.tail[k]
+        if isinstance(k, int) and 0 <= k < len(self.head):
+            return self.head[k]
+        raise Unsupported(f"subscript {k!r} on abstract list {self.base.name} ++ {len(self.tail)} items")
+
+    def getslice(self, it, lo, hi, st):
+        if lo is None and st is None and isinstance(hi, int) and hi < 0 and -hi <= len(self.tail):
+            rest = self.tail[:hi]
+            return AbsCat(self.base, rest, self.head) if (rest or self.head) else self.base
+        raise Unsupported(f"slice [{lo}:{hi}:{st}] of abstract list {self.base.name} ++ {len(self.tail)} items")
+
+    def iterate(self, it):
+        raise Unsupported("iteration over an abstract list with a concrete tail")
+
+    def __repr__(self):
+        return f"AbsCat({self.head!r} ++ {self.base.name} ++ {self.tail!r})"
+
+
+class _NativeFn(NativeAbs):
+    def __init__(self, fn):
+        self.fn = fn
+
+    def call(self, it, args, kwargs):
+        return self.fn(it, args, kwargs)
 
 
 class LoopContract:
@@ -1926,6 +1995,13 @@ def _b_hex(it, args, kw):
 
 
 def _b_sorted(it, args, kw):
+    if isinstance(args[0], AbsSeq):
+        # sorted(abstract): a new list, a permutation of the argument ordered by the key; only its provenance is known
+        src = args[0]
+        out = AbsSeq(f"sorted({src.name})", src.contract, src.length)
+        out.maps = list(src.maps)
+        out.meta = {"sorted_of": src, "sorted_key": kw.get("key"), "reverse": kw.get("reverse", False)}
+        return AbsCat(out, [])
     seq = list(it.iterate(args[0]))
     key = kw.get("key")
     rev = kw.get("reverse", False)
@@ -1959,6 +2035,12 @@ def _b_minmax(which):
 def _b_list(it, args, kw):
     if not args:
         return []
+    if isinstance(args[0], AbsSeq):
+        src = args[0]
+        out = AbsSeq(f"list({src.name})", src.contract, src.length)
+        out.maps = list(src.maps)
+        out.meta = {"copy_of": src}
+        return AbsCat(out, [])
     return list(it.iterate(args[0]))
 
 
